@@ -23,7 +23,9 @@ Lemma load_P : forall st spec0 range asset in_dyn root attr count,
 Proof.
   intros st spec0 range asset in_dyn root attr count H. unfold load.
   set (s := load_target st spec0).
-  destruct (asset && negb (N.eqb attr 0) && negb (attr_allowed o attr)).
+  destruct (asset && N.eqb attr 9 && negb (mem s (w_wasm_ext W))).
+  { eapply P_ext; [| | | |exact H]; reflexivity. }
+  destruct (asset && negb (N.eqb attr 0) && negb (N.eqb attr 9) && negb (attr_allowed o attr)).
   { eapply P_ext; [| | | |exact H]; reflexivity. }
   assert (Hp : P match class_of W s with
                  | SNode => (set_slot st s (BMod (node_module s))) <| st_has_node := true |>
